@@ -19,8 +19,9 @@ MANIFEST = {
             "path; tied to /repo on every run by differential execution of model and real classes inside coqc; the "
             "oracle for a failing input is the executable statement spec_okb, proved to imply the readable Spec.",
     "note": "Trusted: Coq kernel + vm_compute; the harness (generators, drivers, Gallina printer). Tag sets are "
-            "compared extensionally over a 3-tag universe. Histories for stacks containing an "
-            "ExtendedToStreamDecorator start with startTestRun (before it that class has no tag context at all). "
+            "compared extensionally over a 3-tag universe. Histories need not begin with startTestRun on any "
+            "stack (ExtendedToStreamDecorator included: tags()/current_tags/stopTest before the run, the implicit "
+            "start at the first startTest/outcome keeps the tags). "
             "A Tagger below a multiplexer/forwarder changes what its subtree sees on purpose: such leaves are "
             "compared with the model but not with the reporter. All theorems closed under the global context.",
     "technique": "Coq proof (invariant/refinement over histories, induction on adapter trees, set algebra) + "
@@ -28,16 +29,19 @@ MANIFEST = {
     "ref": "6 C17",
 }
 RULE = ("histories over startTestRun / tags(new, gone) / startTest / six outcome kinds / stopTest, incl. the "
-        "startTest-less outcome+stopTest pair: exhaustive over a 6-letter alphabet to length 4 (quick) / 6 (thorough), "
-        "random to length 40 (mostly well-formed, some with nested tests, two outcomes per test, overlapping "
-        "new/gone, startTestRun inside a test), each through an adapter stack (fixed list of 30 + random to depth 4 "
-        "over Leaf/old Leaf/Multi/Decorator/Tagger/E2O/TFR/E2S->S2E); non-trivial = at least one tags() inside a "
-        "test, one outside, and an outcome; distinct = distinct JSON")
+        "startTest-less outcome+stopTest pair, with or without a leading startTestRun on every stack: fixed "
+        "scenarios x 30 stacks; exhaustive over a 6-letter alphabet to length 4 (quick) / 6 (thorough), stacks "
+        "rotating; the scope family [startTestRun]? run-level word, startTest, in-test word, outcome, [tags]?, "
+        "stopTest, next test - words over {add a, remove a} to length 2 (quick) / 3 (thorough) - on each of six "
+        "configurations (ExtendedTestResult, E2O over an old result, MultiTestResult, ThreadsafeForwardingResult, "
+        "E2S->S2E, Tagger removing a); random to length 40 (mostly well-formed, a quarter of the tags() calls undo "
+        "the previous one, some with nested tests, two outcomes per test, overlapping new/gone, startTestRun "
+        "inside a test), each through an adapter stack (fixed list of 30 + random to depth 4 over Leaf/old Leaf/"
+        "Multi/Decorator/Tagger/E2O/TFR/E2S->S2E); non-trivial = at least one tags() inside a test, one outside, "
+        "and an outcome; distinct = distinct JSON")
 TRUSTED = ["the recording leaves (subclasses of doubles.ExtendedTestResult / Python27TestResult that note "
            "current_tags when an outcome arrives) and doubles.StreamResult are used as they are"]
-ASSUMPTIONS = ["a stack containing ExtendedToStreamDecorator is driven with startTestRun first (tags()/current_tags/"
-               "stopTest before the first startTestRun raise AttributeError on that class: no tag context exists yet)",
-               "MultiTestResult has at least one member (MultiTestResult() raises IndexError in its constructor)",
+ASSUMPTIONS = ["MultiTestResult has at least one member (MultiTestResult() raises IndexError in its constructor)",
                "one ThreadsafeForwardingResult per target and a single thread (interleavings are C12)"]
 EXPLANATION = ("Theorems in coq/Props/C17.v over all histories and adapter stacks; correspondence: current_tags of "
                "the outermost real object after every call, current_tags of every wrapped recording result at "
@@ -226,7 +230,10 @@ def rand_stack(rng, d):
     return [k, rand_stack(rng, d - 1)]
 
 
-def rand_tags(rng, sloppy):
+def rand_tags(rng, sloppy, last=None):
+    if last is not None and (last[1] or last[2]) and rng.random() < 0.25:
+        # undo the previous tags() call: re-add what it removed, remove what it added
+        return ["T", list(last[2]), list(last[1])]
     new = rand_set(rng)
     gone = rand_set(rng)
     if not sloppy:
@@ -234,10 +241,17 @@ def rand_tags(rng, sloppy):
     return ["T", new, gone]
 
 
+def _last_tags(h):
+    for op in reversed(h):
+        if op[0] == "T":
+            return op
+    return None
+
+
 def rand_hist(rng, n):
     """mostly well-formed; with small probability one of the excluded shapes"""
     sloppy = rng.random() < 0.12
-    h = []
+    h = [["R"]] if rng.random() < 0.35 else []     # otherwise the run starts implicitly, or later, or never
     in_test = False
     seen = False
     while len(h) < n:
@@ -246,7 +260,7 @@ def rand_hist(rng, n):
             if x < 0.10:
                 h.append(["R"])
             elif x < 0.40:
-                h.append(rand_tags(rng, sloppy))
+                h.append(rand_tags(rng, sloppy, _last_tags(h)))
             elif x < 0.80:
                 h.append(["S"])
                 in_test, seen = True, False
@@ -260,7 +274,7 @@ def rand_hist(rng, n):
                 h.append(["E"])
         else:
             if x < 0.40:
-                h.append(rand_tags(rng, sloppy))
+                h.append(rand_tags(rng, sloppy, _last_tags(h)))
             elif x < 0.65 and (not seen or sloppy):
                 h.append(["O", rng.randrange(6)])
                 seen = True
@@ -277,8 +291,27 @@ def rand_hist(rng, n):
 ALPHA = [["R"], ["S"], ["E"], ["O", 0], ["T", [0], []], ["T", [], [0]]]
 
 
-def fix_for_stack(stack, hist):
-    return ([["R"]] + hist) if has_e2s(stack) and hist[:1] != [["R"]] else hist
+ADD, REM = ["T", [0], []], ["T", [], [0]]
+# one configuration per implementation of the tag scoping: doubles.ExtendedTestResult, ExtendedToOriginalDecorator
+# over an old result, MultiTestResult (TestResult's own code), ThreadsafeForwardingResult's buffers,
+# ExtendedToStreamDecorator -> StreamToExtendedDecorator -> PlaceHolder.run, and a Tagger that removes the tag
+SIX = [L, LO, ["M", [L, LO]], ["F", L], ["S", L], ["G", [], [0], L]]
+
+
+def _words(maxlen):
+    for n in range(maxlen + 1):
+        for w in itertools.product([ADD, REM], repeat=n):
+            yield [list(x) for x in w]
+
+
+def scope_family(maxlen):
+    """[R]? run-level word; startTest; in-test word; outcome; [re-add]?; stopTest; next test: every order of
+    adding / removing / re-adding one tag in the run-level scope and in one test's scope"""
+    for pre in ([["R"]], []):
+        for run in _words(maxlen):
+            for inner in _words(maxlen):
+                for post in ([], [ADD]):
+                    yield pre + run + [["S"]] + inner + [["O", 0]] + post + [["E"], ["S"], ["O", 0], ["E"]]
 
 
 def generate(rng, tier):
@@ -300,10 +333,37 @@ def generate(rng, tier):
         [["R"], ["S"], a, ["S"], b, ["O", 0], ["E"], ["O", 0], ["E"]],
         [["R"], a, ["S"], b, ["R"], ["T", [2], []], ["O", 0], ["E"], ["S"], ["O", 0], ["E"]],
         [],
+        # before any startTestRun (ExtendedToStreamDecorator: the implicit start keeps the tags)
+        [a],
+        [["E"]],
+        [a, ["S"], ["O", 0], ["E"]],
+        [a, ["O", 0]],
+        [a, ["E"], b, ["O", 3], ["E"], ["S"], ["T", [2], [0]], ["O", 0], ["E"], ["S"], ["O", 1], ["E"]],
+        [["S"], a, ["O", 0], ["E"], b, ["S"], ["O", 0], ["E"]],
+        [a, ["S"], ["T", [], [0]], ["O", 0], ["E"], ["R"], b, ["S"], ["O", 0], ["E"]],      # a later explicit start resets
+        [a, ["R"], ["S"], ["O", 0], ["E"]],
+        [a, ["S"], ["O", 0], ["E"], ["R"], ["S"], ["O", 0], ["E"]],
+        # remove a tag, then re-add it in the same scope: inside one test / at run level / both
+        [["R"], a, ["S"], ["T", [], [0]], ["T", [0], []], ["O", 0], ["E"], ["S"], ["O", 0], ["E"]],
+        [["R"], ["S"], a, ["T", [], [0]], ["T", [0], []], ["O", 0], ["E"]],
+        [["R"], ["S"], ["T", [], [0]], ["T", [0], []], ["O", 0], ["E"], ["S"], ["O", 0], ["E"]],
+        [["R"], a, ["T", [], [0]], ["T", [0], []], ["S"], ["O", 0], ["E"]],
+        [["T", [], [0]], ["T", [0], []], ["O", 3], ["E"], ["S"], ["O", 0], ["E"]],
+        [["R"], a, ["T", [1], [0]], ["T", [0], [1]], ["S"], ["T", [], [0]], ["T", [0, 2], []], ["O", 0], ["E"],
+         ["S"], ["T", [], [0]], ["O", 0], ["T", [0], []], ["E"], ["S"], ["O", 0], ["E"]],
+        # add globally, remove locally, re-add locally (before / after the outcome), next test
+        [["R"], ["T", [0, 1], []], ["S"], ["T", [], [0]], ["T", [0], [1]], ["O", 0], ["E"], ["S"], ["O", 0], ["E"]],
+        [a, ["S"], ["T", [], [0]], ["O", 0], ["T", [0], []], ["E"], ["S"], ["T", [], [0]], ["T", [0], []], ["O", 2],
+         ["E"], ["T", [], [0]], ["S"], ["T", [0], []], ["O", 0], ["E"], ["S"], ["O", 0], ["E"]],
+        # removed at run level, re-added in a test only: the next test must not have it
+        [["R"], a, ["T", [], [0]], ["S"], ["T", [0], []], ["O", 0], ["E"], ["S"], ["O", 0], ["E"]],
     ]
     for h in fixed_h:
         for s in STACKS:
-            cases.append({"stack": s, "hist": fix_for_stack(s, h)})
+            cases.append({"stack": s, "hist": h})
+    for h in scope_family(2 if tier == "quick" else 3):
+        for s in SIX:
+            cases.append({"stack": s, "hist": h})
     # bounded-exhaustive core, stacks rotating
     maxlen = 4 if tier == "quick" else 6
     k = 0
@@ -311,12 +371,12 @@ def generate(rng, tier):
         for w in itertools.product(ALPHA, repeat=n):
             s = STACKS[k % len(STACKS)]
             k += 1
-            cases.append({"stack": s, "hist": fix_for_stack(s, [list(x) for x in w])})
-    n_rand = 2600 if tier == "quick" else 70000
+            cases.append({"stack": s, "hist": [list(x) for x in w]})
+    n_rand = 2200 if tier == "quick" else 70000
     for j in range(n_rand):
         s = rng.choice(STACKS) if rng.random() < 0.4 else rand_stack(rng, rng.choice([1, 2, 3, 4]))
         h = rand_hist(rng, rng.choice([3, 6, 10, 16, 25, 40]))
-        cases.append({"stack": s, "hist": fix_for_stack(s, h)})
+        cases.append({"stack": s, "hist": h})
     return cases
 
 
@@ -369,10 +429,7 @@ def _sub_stacks(t):
 def shrink(case):
     h, s = case["hist"], case["stack"]
     for i in range(len(h)):
-        h2 = h[:i] + h[i + 1:]
-        if has_e2s(s) and h2[:1] != [["R"]]:
-            continue
-        yield {"stack": s, "hist": h2}
+        yield {"stack": s, "hist": h[:i] + h[i + 1:]}
     for s2 in _sub_stacks(s):
         yield {"stack": s2, "hist": h}
     for i, op in enumerate(h):
@@ -388,7 +445,8 @@ def shrink(case):
 
 def distribution(cases):
     d = {"hist_len": {}, "stack_kinds": {}, "with_startTestless_outcome": 0, "nontrivial": 0,
-         "outside_quantifier": 0, "restarts": 0}
+         "outside_quantifier": 0, "restarts": 0, "no_startTestRun_first": 0, "e2s_tags_before_start": 0,
+         "readd_same_scope": 0}
     for c in cases:
         n = len(c["hist"])
         b = "0-4" if n <= 4 else "5-10" if n <= 10 else "11-25" if n <= 25 else "26+"
@@ -397,10 +455,21 @@ def distribution(cases):
         for k, nm in (("M", "Multi"), ("D", "Decorator"), ("G", "Tagger"), ("O", "E2O"), ("F", "TFR"), ("S", "E2S->S2E")):
             if '"%s"' % k in s:
                 d["stack_kinds"][nm] = d["stack_kinds"].get(nm, 0) + 1
+        if c["hist"] and c["hist"][0] != ["R"]:
+            d["no_startTestRun_first"] += 1
+            # tags()/stopTest reach an ExtendedToStreamDecorator whose run has not been started
+            d["e2s_tags_before_start"] += has_e2s(c["stack"]) and c["hist"][0][0] in "TE"
         in_test = seen = False
         bad = False
         bare = False
+        gone_here = set()       # tags removed in the current scope
+        readd = False
         for op in c["hist"]:
+            if op[0] in "SER":
+                gone_here = set()
+            elif op[0] == "T":
+                readd |= bool(gone_here & set(op[1]))
+                gone_here = (gone_here - set(op[1])) | set(op[2])
             if op[0] == "S":
                 bad |= in_test
                 in_test, seen = True, False
@@ -418,5 +487,6 @@ def distribution(cases):
         d["with_startTestless_outcome"] += bare
         d["outside_quantifier"] += bad
         d["nontrivial"] += nontrivial(c)
+        d["readd_same_scope"] += readd
         d["restarts"] += sum(1 for op in c["hist"] if op[0] == "R") >= 2
     return d
